@@ -38,6 +38,11 @@ type RaftDriveOpts struct {
 	OnStart func(run *RaftRun)
 	// SpecChannels: see RaftOpts.
 	SpecChannels bool
+	// PreCommitRefusals: draw a probability with which the network refuses sections at pre-commit.
+	PreCommitRefusals bool
+	// ServersFrom / CapsFrom, when set, replace the default choices of cluster size and mailbox capacity
+	// (C02 groups its traces by constant assignment: fewer assignments, fewer TLC runs).
+	ServersFrom, CapsFrom []int
 }
 
 func pctDraw(t *rapid.T) func(string, int) bool {
@@ -54,12 +59,19 @@ func pctDraw(t *rapid.T) func(string, int) bool {
 
 // DriveRaft draws a configuration, a workload, a crash plan and a schedule, and runs it.
 func DriveRaft(t *rapid.T, d RaftDriveOpts) (*RaftRun, string) {
-	n := rapid.SampledFrom([]int{1, 2, 3, 3, 3, 4, 5, 5}).Draw(t, "servers")
+	serversFrom, capsFrom := []int{1, 2, 3, 3, 3, 4, 5, 5}, []int{3, 10, 100, 100}
+	if len(d.ServersFrom) > 0 {
+		serversFrom = d.ServersFrom
+	}
+	if len(d.CapsFrom) > 0 {
+		capsFrom = d.CapsFrom
+	}
+	n := rapid.SampledFrom(serversFrom).Draw(t, "servers")
 	nc := rapid.IntRange(d.MinClients, d.MaxClients).Draw(t, "clients")
 	o := RaftOpts{
 		NumServers: n, NumClients: nc,
 		Persist:          rapid.IntRange(0, 3).Draw(t, "persist") == 0,
-		MailboxCap:       rapid.SampledFrom([]int{3, 10, 100, 100}).Draw(t, "mailboxcap"),
+		MailboxCap:       rapid.SampledFrom(capsFrom).Draw(t, "mailboxcap"),
 		Pick:             func(what string, k int) int { return rapid.IntRange(0, k-1).Draw(t, what) },
 		Pct:              pctDraw(t),
 		ElectPct:         rapid.SampledFrom([]int{2, 5, 15, 40}).Draw(t, "electpct"),
@@ -67,6 +79,9 @@ func DriveRaft(t *rapid.T, d RaftDriveOpts) (*RaftRun, string) {
 		ClientTimeoutPct: rapid.SampledFrom([]int{0, 2, 10}).Draw(t, "clienttimeoutpct"),
 		FalseSuspectPct:  rapid.SampledFrom([]int{0, 0, 5}).Draw(t, "falsesuspectpct"),
 		SpecChannels:     d.SpecChannels,
+	}
+	if d.PreCommitRefusals {
+		o.PreCommitRefusePct = rapid.SampledFrom([]int{0, 0, 2, 10}).Draw(t, "precommit-refusals")
 	}
 	if rapid.Bool().Draw(t, "uneven-timeouts") {
 		// servers time out at different rates, so that elections are not all split votes
